@@ -1,3 +1,12 @@
 import AL.Props.C17
 #print axioms AL.C17.loop_guard_faithful
 #print axioms AL.C17.step_consumes
+#print axioms AL.C17.ref_implies_path
+#print axioms AL.C17.column_le
+#print axioms AL.C17.column_le_ref
+#print axioms AL.C17.column_le_path
+#print axioms AL.C17.trailing_space_col_counterexample
+#print axioms AL.C17.named_char
+#print axioms AL.C17.named_char_unexpected
+#print axioms AL.C17.named_char_invalidRef
+#print axioms AL.C17.scan_col_counterexample
